@@ -155,7 +155,7 @@ contract(CMD + "ToggleDisplayCommand.tobytes",
 # ---- C10: the control command ----------------------------------------------------------------------
 contract(CMD + "SetStateCommand.__init__",
          params={"self": "obj:" + CMD + "SetStateCommand"},
-         ensures={"inv": "cmd_inv(self, 0x02)"}, modifies=["self.*"])
+         ensures={"inv": "cmd_inv(self, 0x02)", "no_forced_aux": "self.force_aux_heat == False"}, modifies=["self.*"])
 
 contract(CMD + "SetStateCommand.tobytes",
          params={"self": "obj:" + CMD + "SetStateCommand"}, globals=G,
